@@ -205,7 +205,7 @@ fn attr_strategy() -> impl Strategy<Value = GenAttr> {
 
 fn run(ctx: &Ctx) {
     ctx.run_regress::<Case, _>(check);
-    let n = ctx.tier.pick(6, 8);
+    let n = ctx.tier.pick(7, 9);
     let count = crate::gen::exh_count(8, n);
     ctx.run_indexed(
         "exh-tag-content-x-modes",
@@ -217,7 +217,7 @@ fn run(ctx: &Ctx) {
         },
         check,
     );
-    let m = ctx.tier.pick(5, 6);
+    let m = ctx.tier.pick(6, 7);
     let mcount = crate::gen::exh_count(8, m);
     ctx.run_indexed(
         "exh-tag-content-via-reader",
@@ -239,7 +239,7 @@ fn run(ctx: &Ctx) {
         }
         Case { content: B(render(&attrs).into_bytes()), html, checks, via_reader }
     });
-    ctx.run_proptest("generated-attribute-lists-with-faults", ctx.tier.pick(600_000, 6_000_000), strat, check);
+    ctx.run_proptest("generated-attribute-lists-with-faults", ctx.tier.pick(2_000_000, 12_000_000), strat, check);
 }
 
 fn replay(_stage: &str, case: &Value) -> Result<Verdict, String> {
